@@ -31,11 +31,47 @@ REQUIRED = ["orderings_definition_checks", "unit_basis_games", "graph_games", "l
             "null_player_checks", "entry_point_pairs", "large_n_unanimity_games"]
 
 
-def real_game(values):
+_REUSE: dict = {}
+
+
+def real_game(values, reuse_rng=None):
+    """A real value-table game; with reuse_rng, half of the time the SAME object as for an earlier game of this size is
+    re-filled (a memo keyed by object identity or size would go stale)."""
     n = (len(values) - 1).bit_length()
-    g = IncompleteCooperativeGame(n)
+    if reuse_rng is not None and n in _REUSE and reuse_rng.random() < 0.5:
+        g = _REUSE[n]
+    else:
+        g = IncompleteCooperativeGame(n)
+        _REUSE[n] = g
     g.set_values(np.array(values, dtype=np.float64))
     return g
+
+
+class _Raising:
+    """A game whose value access fails: a computation that raises mid-way and is survived by the caller."""
+
+    def __init__(self, n):
+        self.number_of_players = n
+
+    def get_values(self, coalitions=None):
+        raise RuntimeError("vmon poison game")
+
+    get_value = get_values
+
+    def copy(self):
+        return self
+
+    def __add__(self, other):
+        return self
+
+
+def poison(ctx, n):
+    for f in (lambda: list(compute_shapley_value(_Raising(n))), lambda: compute_shapley_value_for_player(0, _Raising(n))):
+        try:
+            f()
+        except Exception:
+            pass
+    ctx.count("poison_calls")
 
 
 def shapley_both(ctx, game, n, case):
@@ -60,7 +96,10 @@ def run_case(ctx, case) -> None:
             values = [float(x) for x in game.get_values()]
             ctx.count("graph_games")
         else:
-            game = real_game(values)
+            game = real_game(values, rng)
+            ctx.count("games_on_reused_object" if game is _REUSE.get(n) else "games_on_fresh_object")
+        if rng.random() < 0.03:
+            poison(ctx, n)
         got = shapley_both(ctx, game, n, case)
     except Exception as exc:
         ctx.violation("shapley-raised", f"{type(exc).__name__}: {exc} (n={n})", case)
